@@ -466,7 +466,8 @@ class Worker:
         self.aborted_site: Optional[str] = None
         self.blocked_on: Any = None  # a SimLock this worker waits for
         self.blocks = 0
-        self.hot_profile: Dict[str, int] = {}  # lines executed in functions touching shared state
+        # qualname -> [lines executed, hotness score] for functions touching lasting state
+        self.hot_profile: Dict[str, List[int]] = {}
         self.in_parse = False
 
 
@@ -565,10 +566,15 @@ class Scheduler:
             ws.aborted_site = site_of(code, line, tag)
             ws.abort_at = None
             raise SimAbort(ws.aborted_site)
-        hot = tag == "S" or code.co_qualname in HOT_QUALNAMES or self.hotness.is_hot(code)
+        score = self.hotness.score(code)
+        hot = score > 0 or tag == "S" or code.co_qualname in HOT_QUALNAMES
         if hot:
             q = code.co_qualname
-            ws.hot_profile[q] = ws.hot_profile.get(q, 0) + 1
+            ent = ws.hot_profile.get(q)
+            if ent is None:
+                ws.hot_profile[q] = [1, score or 1]
+            else:
+                ent[0] += 1
         nxt = self.policy.choose(self, ws, code.co_qualname, hot)
         if nxt is not None and nxt != ws.tid:
             site = site_of(code, line, tag)
